@@ -147,7 +147,8 @@ Inductive uev :=
 | UChk | UAct (i : nat)                          (* state machine: invariant / action i started *)
 | UActEnd (i : nat) (how : nat)                  (* 0 = returned, 1 = panicked before drawing, 2 = panicked after drawing *)
 | UCustomBegin | UCustomEnd (how : nat)          (* 0 = returned, 1 = panicked *)
-| UFrameBegin | UFrameEnd.                       (* model only: a fresh inner T starts / is dropped *)
+| UFrameBegin | UFrameEnd                        (* model only: a fresh inner T starts / is dropped *)
+| UCleanupBegin | UCleanupEnd.                   (* model only: T.cleanup starts / is done *)
 
 (* events that do not touch the bookkeeping of T *)
 Definition plain (e : uev) : bool :=
